@@ -14,8 +14,8 @@ RULE = ('family = source of length n in 2b+4..24 -> map(u0) [-> map(u1)] -> pref
         '(pipeline, schedule signature).')
 PROBES = ['pull_bound_b_plus_2_reached', 'start_bound_b_reached']
 BUDGET = {
-    'quick': {'families': 700, 'wall_cap': 240, 'shrink_s': 15},
-    'thorough': {'families': 20000, 'wall_cap': 3000, 'shrink_s': 40},
+    'quick': {'families': 2800, 'wall_cap': 420, 'shrink_s': 15},
+    'thorough': {'families': 30000, 'wall_cap': 5400, 'shrink_s': 40},
 }
 
 POLICIES = [
